@@ -34,6 +34,12 @@ CheckCase ==
                /\ Clause("layout", AttrBlobOK(Ev.blob, Ev.map))
                /\ Clause("read", Ev.back.read = "ok")
                /\ Ev.back.read = "ok" => Clause("roundtrip", SameMap(Ev.back.map, NormAttrs(Ev.map)))
+               \* the same blob is what both file formats store: the map on the first of three sibling instances, the
+               \* stored bytes recovered by reading the files without the database
+               /\ ("files" \in DOMAIN Ev /\ "expected" \in DOMAIN Ev.files) =>
+                     /\ Clause("files-own-blob", Ev.files.expected[1] = Ev.blob)
+                     /\ Clause("files-binary", Ev.files.bin = Ev.files.expected)
+                     /\ Clause("files-xml", Ev.files.xml = Ev.files.expected)
     ELSE /\ Clause("generator-layout", DecodeAttrs(Ev.blob).ok /\ SameMap(DecodeAttrs(Ev.blob).v, Ev.described))
          /\ Clause("read", Ev.back.read = "ok")
          /\ Ev.back.read = "ok" => Clause("decoded", SameMap(Ev.back.map, Ev.described))
